@@ -240,6 +240,41 @@ def generate(tier, seed):
         if rnd.random() < 0.2:
             c, d = b, a                # reciprocal
         add("ra n1=%d d1=%d n2=%d d2=%d" % (a, b, c, d), "ra/big")
+    # families aimed at the overflow-free formulations (ratio_add_impl, gcd-first multiply, Euclid comparison):
+    # the reduced result is representable although a naive product is not
+    M = 2 ** 63 - 1
+    import math
+    for _ in range(60 if not thorough else 900):
+        k = rnd.randrange(5)
+        if k == 0:        # common denominator g with a cancelling numerator: n1/g + n2/g, g2 = gcd(n1+n2, g) > 1
+            g = rnd.choice([2 ** 62, 2 ** 61 * 3, 10 ** 18, 6 * 10 ** 17, 2 ** 40 * 3 ** 10])
+            n1 = rnd.randrange(1, M) | 1
+            n2 = (g * rnd.randrange(1, 4) - n1 % g) % g + g * rnd.randrange(0, 2)
+            line = (n1 * rnd.choice([1, -1]), g, n2, g)
+        elif k == 1:      # Bezout-type cancellation: n1/a - n2/b = 1/(a b) with n1 b ~ 2^93
+            a, b = rnd.choice([(2 ** 31 - 1, 2 ** 31), (2 ** 31 + 11, 2 ** 31 - 1), (3037000499, 3037000500), (999999937, 10 ** 9)])
+            x = pow(b, -1, a)                         # x b = 1 (mod a)
+            t = rnd.randrange(2 ** 29, 2 ** 30)
+            n1 = x + t * a
+            n2 = (n1 * b - 1) // a
+            line = (n1, a, -n2, b)
+        elif k == 2:      # large integer parts of opposite sign, small fractional sum with carry
+            d1, d2 = rnd.choice([(6, 4), (10, 15), (2 ** 20, 2 ** 21), (3 ** 20, 3 ** 19 * 2), (12, 18)])
+            i = rnd.randrange(2 ** 40, M // max(d1, d2))
+            line = (i * d1 + rnd.randrange(1, d1), d1, -(i - rnd.randrange(0, 3)) * d2 + rnd.randrange(1, d2), d2)
+        elif k == 3:      # products that cancel completely: (p/q) * (q'/p') with shared large factors
+            p_, q_ = rnd.choice(BIG), rnd.choice(BIG)
+            u, v = rnd.choice([1, 2, 3, 5, 7, 2 ** 20]), rnd.choice([1, 3, 4, 9, 11, 3 ** 12])
+            line = (p_, q_, q_ // math.gcd(q_, v) * u if rnd.random() < 0.5 else q_, p_ // math.gcd(p_, u) * v if rnd.random() < 0.5 else p_)
+        else:             # neighbours: continued-fraction comparison needs many steps (consecutive Fibonacci-like pairs)
+            f0, f1 = 1, 1
+            for _i in range(rnd.randrange(60, 90)):
+                f0, f1 = f1, f0 + f1
+            line = (f1, f0, f1 + f0, f1) if rnd.random() < 0.5 else (-f1, f0, -(f1 + f0), f1)
+        if all(abs(v) <= M for v in line) and line[1] != 0 and line[3] != 0:
+            add("ra n1=%d d1=%d n2=%d d2=%d" % line, "ra/targeted")
+    for (n, d) in ((1, 0), (0, 0), (-(2 ** 63), 1), (1, -(2 ** 63)), (5, 0)):
+        add("rn n=%d d=%d" % (n, d), "rn/ill-formed")
     add("misc", "misc")
     return cases, False, dist
 
@@ -325,19 +360,7 @@ def classify_item(line, key, impl, spec):
         if key.startswith("is_trivially_constructible<") or key in ("is_trivially_copy_constructible", "is_trivially_move_constructible"):
             return "F-C15-is-trivially-constructible-ignores-args"
         return None
-    if not line.startswith("ra "):
-        return None
-    if key in ("divide", "divide_canon") and spec == "ill-formed" and _reduce(*_ra_args(line)[2:])[0] == 0:
-        return "F-C15-ratio-divide-by-zero-accepted"
-    op = key[:-6] if key.endswith("_canon") else key
-    if op not in ("add", "subtract", "multiply", "divide"):
-        op = "compare"
-    (n, d), fits = ra_intermediates(line, op)
-    if not fits:
-        return "F-C15-ratio-intermediate-overflow" if impl == "ill-formed" and spec != "ill-formed" else None
-    if key.endswith("_canon") and impl == "0" and spec == "1" and (n, d) != _reduce(n, d):
-        return "F-C15-ratio-alias-not-reduced"
-    return None
+    return None            # part (a), (b), (c): no known finding (the three ratio findings are fixed)
 
 
 def classify(case, k, row):            # interface of the standard flow (unused by run())
@@ -497,30 +520,32 @@ def compile_part(ctx, part_no, rows, items, repo):
 
 
 def probe_illformed(ctx, line, op, repo):
-    """Observe that tetl's instantiation really is ill-formed where the model says so (own translation unit).
-    Returns True when the probe does not compile."""
-    n1, d1, n2, d2 = _ra_args(line)
-    name = {"add": "ratio_add", "subtract": "ratio_subtract", "multiply": "ratio_multiply", "divide": "ratio_divide"}.get(op)
-    if name:
-        use = "static_assert(etl::%s<X, Y>::den != 0);" % name
+    """Observe in a translation unit of its own that tetl's instantiation is ill-formed.
+    `op` is add/subtract/multiply/divide, "compare" or "rn".  Returns True when the probe does not compile."""
+    if op == "rn":
+        kv = dict(t.split("=", 1) for t in line.split(" ")[1:])
+        decl = "[[maybe_unused]] constexpr auto probe = etl::ratio<%s, %s>::den;" % (_lit(int(kv["n"])), _lit(int(kv["d"])))
+        head = ""
     else:
-        use = "static_assert(etl::ratio_less<X, Y>::value || !etl::ratio_less<X, Y>::value);"
-    src = ("#include <etl/ratio.hpp>\nusing X = etl::ratio<%dL, %dL>;\nusing Y = etl::ratio<%dL, %dL>;\n%s\nint main() {}\n"
-           % (n1, d1, n2, d2, use))
+        n1, d1, n2, d2 = _ra_args(line)
+        name = {"add": "ratio_add", "subtract": "ratio_subtract", "multiply": "ratio_multiply", "divide": "ratio_divide"}.get(op)
+        head = "using X = etl::ratio<%s, %s>;\nusing Y = etl::ratio<%s, %s>;\n" % (_lit(n1), _lit(d1), _lit(n2), _lit(d2))
+        if name:
+            decl = "[[maybe_unused]] constexpr auto probe = etl::%s<X, Y>::den;" % name
+        else:
+            decl = "[[maybe_unused]] constexpr bool probe = etl::ratio_less<X, Y>::value;"
+    src = "#include <etl/ratio.hpp>\n%s%s\nint main() {}\n" % (head, decl)
     path = os.path.join(lib.BUILD, "c15_%s_probe_%d.cpp" % (ctx.run_id, abs(hash((line, op))) % 10 ** 8))
     open(path, "w").write(src)
     rc, _, _ = lib.sh([lib.CXX] + CXXSTD + ["-fsyntax-only", "-I", os.path.join(repo, "include"), path], timeout=300)
     rejected = rc != 0
-    if not rejected and name is None:
-        # g++ 12 accepts the overflowing product inside `bool_constant<(a * b < c * d)>` and wraps (so the trait
-        # silently yields a wrong value); clang diagnoses the non-constant template argument
-        try:
-            rc2, _, _ = lib.sh(["clang++-16", "-std=c++20", "-fsyntax-only", "-I", os.path.join(repo, "include"), path], timeout=300)
-            rejected = rc2 != 0
-        except OSError:
-            rejected = True            # no second compiler: nothing observed, keep the model's answer
     os.unlink(path)
     return rejected
+
+
+def _lit(x):
+    """C++ spelling of an intmax_t value (INTMAX_MIN has no literal)."""
+    return "(-9223372036854775807L - 1)" if x == -(2 ** 63) else "%dL" % x
 
 
 def evaluate_items(items):
@@ -616,16 +641,33 @@ def run(ctx, replay=None):
 
     fails = evaluate_items(items)
 
-    # probes: where the model says "ill-formed" but the spec does not, observe the compile error itself
-    probed = {}
-    budget = 8 if ctx.tier == "quick" else 24
-    for (it, key, kind, i, s, m, p) in fails:
+    # negative probes: where model and spec agree on "ill-formed" the harness does not instantiate the alias (it could not
+    # compile); observe on a sample, each in a translation unit of its own, that tetl really rejects the instantiation
+    cand = []
+    for it in items:
         ln = it.case.lines[0]
-        if kind == "R3" and ln.startswith("ra ") and i == "ill-formed" and budget > 0 and not key.endswith("_canon"):
-            op = key if key in ("add", "subtract", "multiply", "divide") else "compare"
-            if (ln, op) not in probed:
-                probed[(ln, op)] = probe_illformed(ctx, ln, op, repo)
-                budget -= 1
+        if ln.startswith("rn ") and it.model.strip() == "ill-formed" and it.spec.strip() == "ill-formed":
+            cand.append((ln, "rn"))
+        elif ln.startswith("ra ") and not it.skip and it.call is not None:
+            M_, P_ = parse_items(it.model), parse_items(it.spec)
+            for op in ("add", "subtract", "multiply", "divide"):
+                if M_.get(op) == "ill-formed" and P_.get(op) == "ill-formed":
+                    cand.append((ln, op))
+    cand = list(dict.fromkeys(cand))
+    budget = 32 if ctx.tier == "quick" else 160
+    head_n = min(len(cand), 10)                 # the witnesses of the fixed findings and the ill-formed `rn` rows come first
+    rn_c = [c for c in cand if c[1] == "rn"]
+    rest = [c for c in cand if c[1] != "rn"]
+    pick = rn_c[:12] + rest[:head_n]
+    more = [c for c in rest[head_n:]]
+    random.Random(ctx.seed).shuffle(more)
+    pick = (pick + more)[:budget] if not replay else cand[:budget]
+    probed = {}
+    with cf.ThreadPoolExecutor(max_workers=lib.NPROC) as ex:
+        futs = {k: ex.submit(probe_illformed, ctx, k[0], k[1], repo) for k in pick}
+        for k, f in futs.items():
+            probed[k] = f.result()
+    accepted = [k for k, v in probed.items() if not v]
 
     if replay:
         for it in items:
@@ -637,7 +679,10 @@ def run(ctx, replay=None):
                     log("   %-34s impl=%s model=%s spec=%s std=%s%s" % (k, I[k], M.get(k), P.get(k), S.get(k), mark))
         for idx, err, _ in broken_rows:
             log("%s\n   ill-formed: %s" % (items[idx].case.lines[0], err))
-        badk = sorted({f[2] for f in fails if f[2] in ("R1", "R3")} | ({"ILL-FORMED"} if broken_rows else set()))
+        for (ln, op) in accepted:
+            log("%s\n   %s: model and spec say ill-formed, but tetl's instantiation compiles" % (ln, op))
+        badk = sorted({f[2] for f in fails if f[2] in ("R1", "R3")} | ({"ILL-FORMED"} if broken_rows else set())
+                      | ({"ACCEPTS-ILL-FORMED"} if accepted else set()))
         log("replay: %s" % ("FAILS " + ",".join(badk) if badk else "passes"))
         return 1 if badk else 0
 
@@ -672,14 +717,9 @@ def run(ctx, replay=None):
             continue
         fid = classify_item(ln, key, i, p if p is not None else s) if kind == "R3" else None
         if fid and known.get(fid, {}).get("status") == "known":
-            op = key if key in ("add", "subtract", "multiply", "divide") else "compare"
-            if fid == "F-C15-ratio-intermediate-overflow" and probed.get((ln, op)) is False:
-                fid = None                    # the model says ill-formed, the probe compiled: correspondence broken
-                kind = "R1"
-            else:
-                ctx.known(fid, known[fid].get("what", ""))
-                finding_seen.add(fid)
-                continue
+            ctx.known(fid, known[fid].get("what", ""))
+            finding_seen.add(fid)
+            continue
         gk = (kind, key)
         reported[gk] = reported.get(gk, 0) + 1
         if reported[gk] > 1:
@@ -692,6 +732,17 @@ def run(ctx, replay=None):
                        "theorems": THEOREMS.get(ln.split(" ")[0], []), "lean_error": proof_broken,
                        "source": lib.source_hashes(SOURCES), "failing_input_found": kind == "R3"}, found=(kind == "R3"))
         log("  %s: %s  impl=%s model=%s spec=%s std=%s" % (ln, key, i, m, p, s))
+    for n_acc, (ln, op) in enumerate(accepted):
+        if n_acc >= 3:
+            log("  (%d further ill-formed instantiations accepted)" % (len(accepted) - 3))
+            break
+        what = "ratio<n, d>" if op == "rn" else "ratio_" + op
+        ctx.violation({"kind": "impl_violates_property", "cases": [ln], "failing_line": 0, "item": op,
+                       "impl": "%s: well-formed (the instantiation compiles)" % what, "model": "%s=ill-formed" % op,
+                       "spec": "%s=ill-formed" % op, "std": "ill-formed",
+                       "theorems": THEOREMS.get(ln.split(" ")[0], []), "lean_error": proof_broken,
+                       "source": lib.source_hashes(SOURCES), "failing_input_found": True})
+        log("  %s: %s is ill-formed in model, spec and std, but tetl's instantiation compiles" % (ln, what))
     if proof_broken and not ctx.violations:
         ctx.violation({"kind": "proof_broken", "cases": [], "lean_error": proof_broken, "theorems": PROOF_MODULES,
                        "source": lib.source_hashes(SOURCES), "failing_input_found": False,
@@ -746,6 +797,7 @@ def run(ctx, replay=None):
         "traces_validated_against_impl": agree,
         "input_distribution": dist,
         "illformedness_probes": {"%s [%s]" % k: ("ill-formed as modelled" if v else "COMPILES") for k, v in probed.items()},
+        "illformedness_probe_candidates": len(cand),
         "compile_wall_s": round(compile_s, 1),
         "known_findings_replayed": dict(ctx.known_hits),
         "source_hashes": lib.source_hashes(SOURCES),
